@@ -802,7 +802,7 @@ func runII(c IICase) *pbt.Result {
 const ntRule = "non-trivial = the bucket table grew while holding >= 2 elements AND a present key was removed from a collision chain of length >= 2 (both observed on the live structure by reflection); distinct by the whole history"
 
 var specII = pbt.Register(pbt.Spec[IICase]{
-	Prop: "C12", Name: "intintmap",
+	Prop: "C12", Name: "intintmap", Parallel: 8,
 	Rule:  "IntIntMap: histories of 1-60 ops (put/add/add-if-exist/get/contains-key/contains-value/remove/clear/key+value arrays/three enumerators/sort/to-string/ToBytes+ToObject/IsEmpty/IsFull/SetMax, put and remove ranges) over a key alphabet of boundary values and same-bucket progressions, capacity 1..200 (biased small) x load factor 0.1..4 or the default constructor, NONE 0 or another sentinel, against a Go map; " + ntRule,
 	Quick: 20000, Thorough: 1000000,
 	Draw: drawII, Run: noPanic(runII),
@@ -1214,7 +1214,7 @@ func runIK(c IKCase) *pbt.Result {
 const fContainsValueStub = "F121"
 
 var specIK = pbt.Register(pbt.Spec[IKCase]{
-	Prop: "C12", Name: "intkeymap",
+	Prop: "C12", Name: "intkeymap", Parallel: 8,
 	Rule:  "IntKeyMap: histories of 1-60 ops (put/get/contains-key/contains-value/remove/clear/KeyArray under a hang detector/three enumerators/to-string/to-format-string/put-all from a second map (one time in three built with the receiver's geometry) or nil, later puts/removes on that source map, put and remove ranges; every source map stays alive and must equal its own model at the end), int and string values, same key alphabets, capacity 0..200 x load factor 0.1..4 or the default constructor, against a Go map; " + ntRule,
 	Quick: 20000, Thorough: 1000000,
 	Draw: drawIK, Run: noPanic(runIK),
@@ -1420,7 +1420,7 @@ func runIS(c ISCase) *pbt.Result {
 }
 
 var specIS = pbt.Register(pbt.Spec[ISCase]{
-	Prop: "C12", Name: "intset",
+	Prop: "C12", Name: "intset", Parallel: 8,
 	Rule:  "IntSet (fixed 101 buckets, load 0.75): histories of 1-51 ops (put/contains/remove/clear/put-all of progressions, lists and nil/enumerate/to-string/remove ranges); 60% start with a progression of up to 300 elements whose step is 1, 7 or a multiple of the bucket counts, so growth past 75 elements and long chains are frequent; against a Go set; " + ntRule,
 	Quick: 20000, Thorough: 1000000,
 	Draw: drawIS, Run: noPanic(runIS),
@@ -1625,7 +1625,7 @@ func runSS(c SSCase) *pbt.Result {
 }
 
 var specSS = pbt.Register(pbt.Spec[SSCase]{
-	Prop: "C12", Name: "stringset",
+	Prop: "C12", Name: "stringset", Parallel: 8,
 	Rule:  "StringSet (fixed 101 buckets, load 0.75, CRC-hashed): histories of 1-51 ops (put/unipoint/contains/has-key/remove/clear/enumerate, put and remove ranges prefix+number) over a pool of empty, ASCII, multi-byte and invalid-UTF-8 strings; the empty string is never stored (Put returns it, Contains/Remove answer false); 60% start with a range of up to 300 strings; against a Go set; " + ntRule,
 	Quick: 20000, Thorough: 1000000,
 	Draw: drawSS, Run: noPanic(runSS),
